@@ -150,6 +150,8 @@ def represent_as(rng, j, T):
         return None
     if T in FLOAT_BITS:
         if isinstance(j, Num) and is_dyadic_bits(j.frac(), FLOAT_BITS[T]):
+            if j.frac() == 0 and rng.random() < 0.4:
+                return {"t": T, "v": "-0"}      # IEEE negative zero: the JSON value 0 (strconv.ParseFloat("-0") is -0.0)
             return {"t": T, "v": dec(j.frac())}
         return None
     if T == "jnum":
@@ -237,6 +239,9 @@ def _represent(rng, j):
     if isinstance(j, list):
         for _ in range(3):
             et = rng.choice(ELEM_TYPES)
+            if j and all(isinstance(x, list) and len(x) == len(j[0]) for x in j) and rng.random() < 0.5:
+                # rows of one length: the element type can be a Go array ([][2]int, [3][1]any, ...)
+                et = "[%d]%s" % (len(j[0]), rng.choice(["any", "int", "float64", "any", "*int", "jnum"]))
             T = ("[%d]" % len(j) if rng.random() < 0.25 else "[]") + et
             d = represent_as(rng, j, T)
             if d is not None:
